@@ -88,6 +88,23 @@ PREFIX_POOL = ["com.c20.p.", "com.c20.p.q.", "com.c20.p.q.r.", "com.c20.z", "com
 URI_POOL = ["com.c20.p.a1", "com.c20.p.q.a2", "com.c20.p.q.r.a3", "com.c20.zz.a4", "com.c20.y.a5", "org.c20.a6"]
 ERR_POOL = ["com.c20.p.err1", "com.c20.p.q.err2", "com.c20.zerr3", "org.c20.err4"]
 KINDS = ["value", "callresult", "progress", "raise", "raise_rt"]
+# handlers attached to ONE subscription id (the stub router answers repeated SUBSCRIBEs for a topic with the same id)
+NHANDLERS = {"com.c20.p.a1": 3, "com.c20.p.q.a2": 2, "com.c20.p.q.r.a3": 1, "com.c20.zz.a4": 2, "com.c20.y.a5": 3, "org.c20.a6": 2}
+# pattern-based subscriptions / registrations: (pattern, match policy, concrete URI the router reports in details)
+PATTERN_SUBS = [("com.c20.p.", "prefix", "com.c20.p.q.a2"), ("com.", "prefix", "com.c20.zz.a4"), ("org.", "prefix", "org.c20.a6"),
+                ("com.c20..a5", "wildcard", "com.c20.y.a5"), ("com.c20.p..a3x", "wildcard", "com.c20.p.q.a3x")]
+PATTERN_REGS = [("com.c20.", "prefix", "com.c20.p.a1"), ("com.c20.", "prefix", "com.c20.p.q.a2"), ("com.c20.p.", "prefix", "com.c20.p.q.r.a3"),
+                ("com.c20.", "prefix", "com.c20.zz.a4"), ("com.c20..a5", "wildcard", "com.c20.y.a5"), ("org..a6", "wildcard", "org.c20.a6")]
+
+
+def nhandlers(topic):
+    return NHANDLERS.get(topic, 2)
+
+
+def events_exact(evs, nh, topic, args, kwargs):
+    """every one of the ``nh`` handlers of the subscription id ran exactly once, each with exactly the original data"""
+    return (len(evs) == nh and sorted(e[5] for e in evs) == list(range(nh))
+            and all(e[1] == topic and same(e[2], args) and same(e[3], kwargs) for e in evs))
 
 
 def K(view, default=None, prefixes=None):
@@ -458,7 +475,8 @@ def rt_publish(ctx, topic, sub_topic=None, match=None, shape=None):
     p = ctx.P()
     R.count("evaluations")
     sub = sub_topic or topic
-    p.ensure_sub(sub, match)
+    nh = nhandlers(sub)
+    p.ensure_sub(sub, match, handlers=nh)
     args, kwargs, tags, shape = gen_payload(ctx.rng, ctx.tg, shape)
     kA = P.ref_has_box(ctx.side_a, True, topic)
     if kA is not None:
@@ -473,22 +491,29 @@ def rt_publish(ctx, topic, sub_topic=None, match=None, shape=None):
     path = "event-pattern" if match else "event"
     ctx.nontrivial(path, topic, shape)
     if ctx.matched(enc, kA, ctx.side_b, False, topic):
-        if len(evs) != 1:
-            ctx.V("C20/%s/%s/handler-invoked-%d-times" % (path, "not-recovered" if enc else "clear-by-rule", len(evs)),
-                  "unaltered EVENT for %r between matching key rings: handler invoked %d times" % (topic, len(evs)))
+        if len(evs) != nh or sorted(e[5] for e in evs) != list(range(nh)):
+            ctx.V("C20/%s/%s/handlers-invoked-wrong-count" % (path, "not-recovered" if enc else "clear-by-rule"),
+                  "unaltered EVENT for %r between matching key rings: %d handler invocations for %d handlers on the "
+                  "subscription id" % (topic, len(evs), nh), got=short(evs, 400))
         elif enc:
-            _, dtopic, hargs, hkwargs, _algo = evs[0]
-            if dtopic != topic or not same(hargs, args) or not same(hkwargs, kwargs):
+            if not events_exact(evs, nh, topic, args, kwargs):
                 ctx.V("C20/%s/not-recovered/payload-differs" % path, "subscriber received a payload different from the publisher's",
-                      got=short((dtopic, hargs, hkwargs), 600), expected=short((topic, args, kwargs), 600))
+                      got=short(evs, 600), expected=short((topic, args, kwargs), 600))
             R.count("events_compared")
+            if nh > 1:
+                R.count("multi_handler_events_compared")
+            if match:
+                R.count("pattern_events_compared")
+                R.seen("pattern_policies", "sub/" + match)
             R.seen("shapes_recovered", path + "/" + shape)
     else:
         if evs:
             ctx.V("C20/%s/key-mismatch/handler-invoked" % path,
-                  "EVENT encrypted under a key the subscriber's key ring does not hold for %r reached the handler" % topic,
-                  got=short(evs, 400))
+                  "EVENT encrypted under a key the subscriber's key ring does not hold for %r reached %d of the %d handlers"
+                  % (topic, len(evs), nh), got=short(evs, 400))
         R.count("rejections_checked")
+        if nh > 1:
+            R.count("multi_handler_rejections")
     ctx.scan("after event")
     ctx.clear_secrets()
     if R.counters.get("evaluations", 0) % 97 == 1:
@@ -527,12 +552,16 @@ def make_script(ctx, kind):
     raise ValueError(kind)
 
 
-def rt_call(ctx, proc, kind, shape=None):
+def rt_call(ctx, proc, kind, shape=None, reg=None, match=None):
+    """``proc`` = the concrete URI called; ``reg``/``match`` = the pattern the endpoint is registered under (the harness
+    then reports ``proc`` in INVOCATION.details.procedure, as a dealer does for pattern-based registrations)."""
     P = _P()
     R = ctx.R
     p = ctx.P()
     R.count("evaluations")
-    p.ensure_reg(proc)
+    reg = reg or proc
+    p.ensure_reg(reg, match)
+    inv_details = {"procedure": proc} if match else None
     args, kwargs, tags, shape = gen_payload(ctx.rng, ctx.tg, shape)
     kA = P.ref_has_box(ctx.side_a, True, proc)
     if kA is not None:
@@ -546,8 +575,8 @@ def rt_call(ctx, proc, kind, shape=None):
         return
     parts, enc = ctx.wire_check(c, proc, args, kwargs, kA, "call")
     ctx.scan("after call")
-    rid, invs, replies = p.send_invocation(proc, parts)
-    ctx.nontrivial("call", proc, kind, shape)
+    rid, invs, replies = p.send_invocation(reg, parts, inv_details)
+    ctx.nontrivial("call-pattern" if match else "call", reg, proc, kind, shape)
     if not ctx.matched(enc, kA, ctx.side_b, False, proc):
         # the responder cannot open it: endpoint must not run, the call must fail with an encryption error
         p.script[:] = []
@@ -580,6 +609,9 @@ def rt_call(ctx, proc, kind, shape=None):
             ctx.V("C20/invocation/not-recovered/payload-differs", "callee received a payload different from the caller's",
                   got=short((dproc, hargs, hkwargs), 600), expected=short((proc, args, kwargs), 600))
         R.count("invocations_compared")
+        if match:
+            R.count("pattern_invocations_compared")
+            R.seen("pattern_policies", "reg/" + match)
         R.seen("shapes_recovered", "invocation/" + shape)
     # ---- replies of the callee
     if len(replies) != len(expected):
@@ -613,6 +645,8 @@ def rt_call(ctx, proc, kind, shape=None):
                             ctx.V("C20/progress/not-recovered/payload-differs", "on_progress received a payload different from "
                                   "the callee's", got=short(got[0], 600), expected=short((rargs, rkwargs), 600))
                         R.count("progress_compared")
+                        if match:
+                            R.count("pattern_results_compared")
                 elif got:
                     ctx.V("C20/progress/key-mismatch/handler-invoked", "on_progress ran for a RESULT the caller cannot open")
             else:
@@ -639,6 +673,8 @@ def rt_call(ctx, proc, kind, shape=None):
                         ctx.V("C20/result/not-recovered/payload-differs", "caller received a result different from the callee's",
                               got=short(oc, 600), expected=short(want, 600))
                     R.count("results_compared")
+                    if match:
+                        R.count("pattern_results_compared")
                     R.seen("shapes_recovered", "result/" + kind)
             else:
                 ctx.expect_enc_error(o, "result", "key-mismatch", ctx.lname)
@@ -654,6 +690,8 @@ def rt_call(ctx, proc, kind, shape=None):
                         ctx.V("C20/error/not-recovered/payload-differs", "caller received an error different from the callee's",
                               got=short(oc, 600), expected=short((euri, rargs, rkwargs), 600))
                     R.count("errors_compared")
+                    if match:
+                        R.count("pattern_errors_compared")
                     R.seen("shapes_recovered", "error/" + kind)
             else:
                 ctx.expect_enc_error(o, "error", "key-mismatch", ctx.lname)
@@ -675,8 +713,11 @@ def family_roundtrip(ctx):
             rt_publish(ctx, uri)
             for kind in KINDS:
                 rt_call(ctx, uri, kind)
-        for sub, topic in (("com.c20.p.", "com.c20.p.q.a2"), ("com.", "com.c20.zz.a4"), ("org.", "org.c20.a6")):
-            rt_publish(ctx, topic, sub_topic=sub, match="prefix")
+        for sub, match, topic in PATTERN_SUBS:
+            rt_publish(ctx, topic, sub_topic=sub, match=match)
+        for reg, match, proc in PATTERN_REGS:
+            for kind in KINDS:
+                rt_call(ctx, proc, kind, reg=reg, match=match)
 
 
 # ------------------------------------------------------------------------------------------------
